@@ -345,8 +345,171 @@ def node(w, hist, cfg, res):
     return n, len(w.states) >= 3, viol
 
 
+def multi_scenario(pattern, kinds):
+    """Two databases of one multi-database, commits interleaved as in
+    `pattern` (a string over '1' / '2'); a historical connection to either
+    one must show BOTH databases as of the chosen point, through
+    get_connection and through a cross-database reference."""
+    env.reset_globals()
+    from mc import dbworld
+    dbworld.own_hash_order()
+    viol = []
+    d = env.new_dir('hm')
+    FS = env.mod('ZODB.FileStorage.FileStorage').FileStorage
+    MS = env.mod('ZODB.MappingStorage').MappingStorage
+    DB = env.mod('ZODB.DB').DB
+    ROE = (env.mod('ZODB.POSException').ReadOnlyHistoryError,
+           env.mod('ZODB.POSException').ReadOnlyError)
+    dbs = {}
+    sts = {}
+    for name, k in zip('12', kinds):
+        sts[name] = FS(os.path.join(d, 'D%s.fs' % name)) if k == 'F' \
+            else MS(name)
+    db = {n: DB(sts[n], databases=dbs, database_name=n) for n in '12'}
+    wit = dict(multi=dict(pattern=pattern, kinds=list(kinds)))
+    n = 0
+
+    def bad(c, s, det):
+        viol.append((c, s, dict(det, **wit)))
+    try:
+        tm = transaction.TransactionManager()
+        c1 = db['1'].open(tm)
+        c2 = c1.get_connection('2')
+        val = [0]
+        hist = {'1': [], '2': []}      # [(tid, value)]
+        objs = {}
+        for name, c in (('2', c2), ('1', c1)):
+            o = hclasses.P()
+            val[0] += 1
+            o.v = val[0]
+            c.root()['o'] = o
+            objs[name] = o
+        c2.add(objs['2'])
+        c1.root()['other'] = objs['2']      # cross-database reference
+        env.CLOCK.now += TICK
+        tm.commit()
+        for name in '12':
+            hist[name].append((sts[name].lastTransaction(), objs[name].v))
+        for name in pattern + '12':
+            val[0] += 1
+            objs[name].v = val[0]
+            env.CLOCK.now += TICK
+            tm.commit()
+            hist[name].append((sts[name].lastTransaction(), val[0]))
+        tids = sorted({t for h in hist.values() for t, v in h})
+
+        def expect(name, before):
+            vals = [v for t, v in hist[name] if t < before]
+            return vals[-1] if vals else None
+        points = []
+        for t in tids:
+            points.append(('at-tid', dict(at=t), p64(u64(t) + 1)))
+            points.append(('before-tid', dict(before=t), t))
+            points.append(('before-tid+1', dict(before=p64(u64(t) + 1)),
+                           p64(u64(t) + 1)))
+        # a point later than the newest transaction of either database is
+        # "in the future" there and refused: not part of this family
+        horizon = p64(u64(min(h[-1][0] for h in hist.values())) + 1)
+        for label, kw, before in points:
+            if before > horizon:
+                continue
+            for primary, secondary in (('1', '2'), ('2', '1')):
+                if expect(primary, before) is None or \
+                        expect(secondary, before) is None:
+                    continue        # before the objects existed
+                n += 1
+                tmh = transaction.TransactionManager()
+                ch = call(db[primary].open, tmh, **kw)
+                if isinstance(ch, Exc):
+                    bad('state', 'multi:%s:open:%s' % (label, ch.name),
+                        dict(point=repr(kw), primary=primary))
+                    continue
+                try:
+                    got_p = call(lambda: ch.root()['o'].v)
+                    got_s = call(lambda: ch.get_connection(
+                        secondary).root()['o'].v)
+                    want_p = expect(primary, before)
+                    want_s = expect(secondary, before)
+                    if got_p != want_p:
+                        bad('state', 'multi:%s:primary' % label, dict(
+                            point=repr(kw), primary=primary,
+                            expected=want_p, got=repr(got_p)))
+                    if got_s != want_s:
+                        bad('state', 'multi:%s:secondary' % label, dict(
+                            point=repr(kw), primary=primary,
+                            expected=want_s, got=repr(got_s)))
+                    if primary == '1':
+                        got_x = call(lambda: ch.root()['other'].v)
+                        if got_x != want_s:
+                            bad('state', 'multi:%s:cross-reference' % label,
+                                dict(point=repr(kw), expected=want_s,
+                                     got=repr(got_x)))
+                    if label == 'at-tid':
+                        # writing through the secondary connection fails
+                        n += 1
+                        last = sts[secondary].lastTransaction()
+                        try:
+                            ch.get_connection(secondary).root()['o'].v = -1
+                            tmh.commit()
+                            r = 'committed'
+                        except ROE:
+                            r = 'refused'
+                        except Exception as e:      # noqa: B902
+                            r = type(e).__name__
+                        tmh.abort()
+                        if r != 'refused' or \
+                                sts[secondary].lastTransaction() != last:
+                            bad('ro', 'multi:write-secondary:%s' % r,
+                                dict(point=repr(kw), primary=primary))
+                finally:
+                    tmh.abort()
+                    ch.close()
+    except Exception as e:      # noqa: B902
+        import traceback
+        bad('error', 'multi:%s' % type(e).__name__,
+            dict(error=repr(e)[:300], where=traceback.format_exc()[-400:]))
+    finally:
+        try:
+            tm.abort()
+            for x in db.values():
+                x.close()
+        except Exception:
+            pass
+        env.rm_dir(d)
+    return n, viol
+
+
+def multi_patterns(k):
+    import itertools
+    return [''.join(p) for ln in range(1, k + 1)
+            for p in itertools.product('12', repeat=ln)]
+
+
+def multi_task(kinds, k):
+    from mc import schedx
+    env.install()
+    res = schedx._new_res()
+    seen = set()
+    for pattern in multi_patterns(k):
+        n, viol = multi_scenario(pattern, kinds)
+        res['cov']['traces_validated_against_impl'] += 1
+        res['cov']['states'] += 1
+        res['cov']['transitions'] += len(pattern) + 3
+        res['cov']['evaluations'] += n
+        res['cov']['distinct_nontrivial'] += 1
+        res['outcomes']['multi-database'] = \
+            res['outcomes'].get('multi-database', 0) + 1
+        for c, s, dd in viol:
+            fs = 'C15.%s:%s' % (c, s)
+            if fs not in seen:
+                seen.add(fs)
+                res['violations'].append(('C15.' + c, fs, dict(
+                    multi=dd['multi']), dd, 1))
+    return res
+
+
 def run(rep, tier, seed, workers):
-    depth = 6 if tier == 'quick' else 7
+    depth = 6 if tier == 'quick' else 8
     rep.rule = (
         'all histories up to the depth over {modify x, create z, modify z, '
         'undo the 1st / 2nd newest transaction, unlink + delete z} with '
@@ -354,7 +517,12 @@ def run(rep, tier, seed, workers):
         '(at tid, before tid, before tid+1, at / before a datetime between '
         'transactions, naive and aware) is opened and all objects read, '
         'before and after two more live commits, plus one historical '
-        'connection kept open across them; non-trivial = history with at '
+        'connection kept open across them; plus two databases of one '
+        'multi-database with every interleaving pattern of their commits up '
+        'to the stated length: a historical connection to either one, at / '
+        'before every tid of both, must show both databases as of that '
+        'point (get_connection, cross-database reference) and refuse writes '
+        'through the secondary connection; non-trivial = history with at '
         'least three transactions')
     states = 0
     for kind in ('F', 'M'):
@@ -362,14 +530,24 @@ def run(rep, tier, seed, workers):
         fps = seqx.explore(rep, MOD, cfg, depth, workers, seed, split=2)
         states += len(fps)
         rep.bounds['%s depth' % kind] = depth
-    rep.cov['states'] = max(states, 1)
+    from mc import par
+    k = 4 if tier == 'quick' else 7
+    before = rep.cov.get('states', 0)
+    par.run_tasks([(MOD, 'multi_task', (kinds, k))
+                   for kinds in ('FF', 'FM', 'MF')], workers, rep, seed)
+    rep.bounds['multi-database interleaving length'] = k
+    rep.cov['states'] = max(states, 1) + rep.cov.get('states', 0) - before
     rep.assumptions = [
         'no pack in the histories (the property excludes points older than '
         'the last pack)']
 
 
 def replay(w):
-    viol = seqx.replay_history(MOD, w['witness'])
+    if 'multi' in w['witness']:
+        m = w['witness']['multi']
+        n, viol = multi_scenario(m['pattern'], tuple(m['kinds']))
+    else:
+        viol = seqx.replay_history(MOD, w['witness'])
     for v in viol:
         print(v)
     sigs = {'C15.%s:%s' % (c, s) for c, s, d in viol}
